@@ -33,6 +33,7 @@ type PropDef struct {
 	Exhaustive   bool
 	Pkgs         []string
 	AssertPrefix string
+	RaceReplay   bool // counterexamples are confirmed by a -race build of the native harness
 	Bounds       string
 	Assumptions  []string
 	Outside      string
@@ -174,6 +175,7 @@ func RunCheck(cfg CheckConfig) int {
 	defer nat.Close()
 
 	var problems []string
+	var natRace *Native
 	var allViol []Violation
 	knownSeen := map[string]int{}
 	totalPaths, totalDec, totalQ, totalInstr := 0, 0, 0, 0
@@ -312,7 +314,27 @@ func RunCheck(cfg CheckConfig) int {
 				problems = append(problems, fmt.Sprintf("%s: no native result for counterexample %v", hd.Name, v.Vector))
 				continue
 			}
-			if !violationReproduces(v, nr) {
+			if pd.RaceReplay && v.Kind == "assert" {
+				// confirm with the race detector: one process per vector
+				if natRace == nil {
+					natRace, _ = NewNative(P)
+					natRace.Race = true
+					natRace.Params = nat.Params
+					defer natRace.Close()
+				}
+				rr, rerr := natRace.Run(pkg, []NativeItem{{ID: "r", Harness: v.Harness, Vector: v.Vector}}, 20000)
+				if rerr != nil {
+					problems = append(problems, hd.Name+": race replay failed: "+rerr.Error())
+					continue
+				}
+				if r := rr["r"]; r != nil && r.Race {
+					nr = r
+					nr.Outcome, nr.Detail = "race", "reported by the Go race detector"
+				} else {
+					problems = append(problems, fmt.Sprintf("%s: counterexample for %s not confirmed by the race detector, vector=%v", hd.Name, v.Assert, v.Vector))
+					continue
+				}
+			} else if !violationReproduces(v, nr) {
 				problems = append(problems, fmt.Sprintf("%s: counterexample for %s (%s) did not reproduce natively (native: %s %s) vector=%v", hd.Name, v.Assert, v.Kind, nr.Outcome, nr.Detail, v.Vector))
 				continue
 			}
